@@ -1439,6 +1439,56 @@ def run(index, rep, tier):
                           "%s iterates `%s` where `%s` is an integer read from the document and is not clamped to a declared dimension: a position list such as `1-99999999999` makes the reader loop over the whole interval - it never terminates in practice although every position beyond NCHAR is going to be discarded anyway" % (f.qualname, norm(c)[:60], ", ".join(bad)))
         rep.floor("R20.21", "ranges bounded by a number from the document", 1, n21)
 
+    # ---- R20.22 a repeated name in the document is the document's error
+    with rep.section("R20.22"):
+        rep.rule("R20.22", "a repeated name in the document is the document's error: where a Newick / NEXUS / PHYLIP / FASTA reader hands a name read from the text to a data-model method that refuses duplicates with ValueError (`if <key> in <container>: raise ValueError`, directly or through a one-line wrapper), the call is dominated by a membership test on that container or sits in a try that catches ValueError - otherwise `charset x = 1-2; charset x = 3-4;` reaches the caller as a bare ValueError")
+        refusers = {}
+        for m in sorted(index.modules):
+            if not m.startswith("dendropy.datamodel"):
+                continue
+            for fi in index.functions_in_module(m):
+                if fi.name.startswith("__"):
+                    continue
+                for st in walk_no_nested(fi.node):
+                    if isinstance(st, ast.If) and isinstance(st.test, ast.Compare) and len(st.test.ops) == 1 and isinstance(st.test.ops[0], ast.In) \
+                            and any(isinstance(b, ast.Raise) and b.exc is not None and "ValueError" in norm(b.exc) for b in st.body):
+                        cont = norm(st.test.comparators[0])
+                        refusers.setdefault(fi.name, set()).add(cont.split(".")[-1])
+        # one-hop wrappers: a data-model method that hands its arguments on to a refuser of the same class
+        for m in sorted(index.modules):
+            if not m.startswith("dendropy.datamodel"):
+                continue
+            for fi in index.functions_in_module(m):
+                if fi.name in refusers or fi.name.startswith("__"):
+                    continue
+                for c in calls_in(fi.node):
+                    if call_name(c) in refusers and isinstance(c.func, ast.Attribute) and norm(c.func.value) == "self":
+                        refusers.setdefault(fi.name, set()).update(refusers[call_name(c)])
+        if len(refusers) < 3:
+            raise AnalysisError("R20.22: the duplicate-refusing methods of the data model were not recognised (%s)" % sorted(refusers))
+        n22 = 0
+        for m in ("dendropy.dataio.nexusreader", "dendropy.dataio.newickreader", "dendropy.dataio.phylipreader", "dendropy.dataio.fastareader", "dendropy.dataio.nexusyielder", "dendropy.dataio.newickyielder"):
+            for fi in index.functions_in_module(m):
+                pm = None
+                for c in calls_in(fi.node, nested=True):
+                    if not (call_name(c) in refusers and isinstance(c.func, ast.Attribute)):
+                        continue
+                    n22 += 1
+                    conts = refusers[call_name(c)]
+                    pm = pm or parent_map(fi.node)
+                    ok = _in_try_catching(pm, c, {"ValueError", "Exception", "BaseException"})
+                    if not ok:
+                        g = cfg_of(fi)
+                        nd = node_of_ast(g, c)
+
+                        def member_test(s):
+                            return s.kind == "test" and isinstance(s.ast, ast.Compare) and len(s.ast.ops) == 1 and isinstance(s.ast.ops[0], (ast.In, ast.NotIn)) \
+                                and (norm(s.ast.comparators[0]).split(".")[-1] in conts or norm(s.ast.comparators[0]) == norm(c.func.value))
+                        ok = nd is not None and any(member_test(s) for s in g.nodes) and g.dominated_by(nd, member_test, follow_exc=False)
+                    rep.check(ok, "R20.22", fi.qualname, "`%s` can refuse a repeated name with ValueError" % norm(c.func), fn_where(fi, c), "%s: %s is guarded" % (fi.name, norm(c.func)),
+                              "%s calls `%s` with a name taken from the document; the method raises ValueError when the name is already in `%s`, and nothing between the tokenizer and this call tests for that or catches it - a document that defines the same name twice is answered with a bare ValueError from inside the data model instead of a data-parse error pointing at the line" % (fi.qualname, norm(c)[:60], "/".join(sorted(conts))))
+        rep.floor("R20.22", "reader calls into duplicate-refusing methods", 2, n22)
+
 
 def _branch_calls_raiser(cfg, n):
     for lab, t in n.succ:
